@@ -398,6 +398,43 @@ impl Translator {
             Some(Ty::Unknown) => None,
             a => a,
         };
+        // a value-producing if/match that also assigns outer variables:
+        //   let x = if c { flag = true; a } else { b };
+        // becomes  if c { flag = true; x = a; } else { x = b; }  with x declared first, so that the
+        // assignments are threaded out of the branches together with the value
+        if let (Pat::Ident(pi), true) = (pat, matches!(&*init.expr, Expr::If(_) | Expr::Match(_))) {
+            let assigned: Vec<String> =
+                assigned_vars(&init.expr).into_iter().filter(|n| self.lookup(n).is_some()).collect();
+            if !assigned.is_empty() {
+                let n = pi.ident.to_string();
+                let ty = match &ann {
+                    Some(a) => a.clone(),
+                    None => {
+                        // dry run for the type of the value
+                        self.frames.push(Vec::new());
+                        self.push_scope();
+                        let saved = self.dry_run;
+                        self.dry_run = true;
+                        let r = self.tr_expr(&init.expr, None);
+                        self.dry_run = saved;
+                        self.pop_scope();
+                        self.frames.pop();
+                        match r?.ty {
+                            Ty::Lit => Ty::Int("I32"),
+                            t => t,
+                        }
+                    }
+                };
+                let rewritten = match rewrite_tail_assign(&init.expr, &n) {
+                    Some(e) => e,
+                    None => return self.err(l.span(), "assignment inside a value-producing if/match of unsupported shape"),
+                };
+                self.declare(&n, ty);
+                let mut vars = assigned.clone();
+                vars.push(n);
+                return self.tr_assigning(&rewritten, &vars);
+            }
+        }
         let v = self.tr_expr(&init.expr, ann.as_ref())?;
         let vty = match (&ann, &v.ty) {
             (Some(a), _) => a.clone(),
@@ -834,6 +871,101 @@ impl<'ast> syn::visit::Visit<'ast> for AssignFinder {
         syn::visit::visit_local(self, l);
     }
     fn visit_expr_closure(&mut self, _: &'ast syn::ExprClosure) {}
+}
+
+/// `{ S; x }` -> `{ S; name = x; }` in every branch of an if/match (None when a branch has no tail value)
+pub fn rewrite_tail_assign(e: &Expr, name: &str) -> Option<Expr> {
+    fn block(b: &syn::Block, name: &str) -> Option<syn::Block> {
+        let mut b2 = b.clone();
+        match b2.stmts.pop() {
+            Some(Stmt::Expr(x, None)) => {
+                if always_diverges_expr(&x) {
+                    b2.stmts.push(Stmt::Expr(x, Some(Default::default())));
+                    return Some(b2);
+                }
+                let st = tail_stmt(&x, name)?;
+                b2.stmts.push(st);
+                Some(b2)
+            }
+            Some(Stmt::Macro(m)) if m.semi_token.is_none() => {
+                if is_diverging_macro(&m.mac) {
+                    b2.stmts.push(Stmt::Macro(m));
+                    return Some(b2);
+                }
+                let x = Expr::Macro(syn::ExprMacro { attrs: m.attrs.clone(), mac: m.mac.clone() });
+                let st = tail_stmt(&x, name)?;
+                b2.stmts.push(st);
+                Some(b2)
+            }
+            Some(other) => {
+                // a block ending in a statement: it diverges (return / fatal) or has no value
+                if stmts_always_diverge(std::slice::from_ref(&other)) {
+                    b2.stmts.push(other);
+                    Some(b2)
+                } else {
+                    None
+                }
+            }
+            None => None,
+        }
+    }
+    fn tail_stmt(x: &Expr, name: &str) -> Option<Stmt> {
+        match x {
+            Expr::If(_) | Expr::Match(_) => {
+                let inner = rewrite_tail_assign(x, name)?;
+                Some(Stmt::Expr(inner, Some(Default::default())))
+            }
+            Expr::Block(b) => {
+                let nb = block(&b.block, name)?;
+                Some(Stmt::Expr(Expr::Block(syn::ExprBlock { attrs: b.attrs.clone(), label: None, block: nb }), Some(Default::default())))
+            }
+            _ => syn::parse_str::<Stmt>(&format!("{} = {};", name, quote_str(x))).ok(),
+        }
+    }
+    match e {
+        Expr::If(ife) => {
+            let mut n = ife.clone();
+            n.then_branch = block(&ife.then_branch, name)?;
+            match &ife.else_branch {
+                Some((tok, eb)) => {
+                    let ne = match &**eb {
+                        Expr::Block(b) => {
+                            let nb = block(&b.block, name)?;
+                            Expr::Block(syn::ExprBlock { attrs: b.attrs.clone(), label: None, block: nb })
+                        }
+                        other @ Expr::If(_) => rewrite_tail_assign(other, name)?,
+                        _ => return None,
+                    };
+                    n.else_branch = Some((*tok, Box::new(ne)));
+                }
+                None => return None,
+            }
+            Some(Expr::If(n))
+        }
+        Expr::Match(m) => {
+            let mut n = m.clone();
+            for arm in n.arms.iter_mut() {
+                let nb: Expr = match &*arm.body {
+                    Expr::Block(b) => {
+                        let nb = block(&b.block, name)?;
+                        Expr::Block(syn::ExprBlock { attrs: b.attrs.clone(), label: None, block: nb })
+                    }
+                    other => {
+                        if always_diverges_expr(other) {
+                            other.clone()
+                        } else {
+                            let st = tail_stmt(other, name)?;
+                            let blk: syn::Block = syn::Block { brace_token: Default::default(), stmts: vec![st] };
+                            Expr::Block(syn::ExprBlock { attrs: vec![], label: None, block: blk })
+                        }
+                    }
+                };
+                arm.body = Box::new(nb);
+            }
+            Some(Expr::Match(n))
+        }
+        _ => None,
+    }
 }
 
 pub fn assigned_vars(e: &Expr) -> Vec<String> {
